@@ -713,3 +713,49 @@ func OpenLines(r *rand.Rand) (ref.Pos, bool) {
 	}
 	return ref.Pos{}, false
 }
+
+// Crowded builds a legal position in which the side to move has more than 128 moves (seven to ten queens on
+// open lines, pawns about to promote, the enemy king sheltered in a corner behind its own men): sizes beyond
+// anything a game reaches, but well-formed, and the moves generated last (pawn and king moves) are often the best.
+func Crowded(r *rand.Rand) (ref.Pos, bool) {
+	for try := 0; try < 400; try++ {
+		var p ref.Pos
+		p.EP = -1
+		p.White = true
+		p.Full = 1 + r.Intn(60)
+		p.Half = r.Intn(40)
+		// black king h8 behind g7/h7, a piece on g8
+		p.B[ref.Sq(7, 7)] = -ref.King
+		p.B[ref.Sq(6, 7)] = -[]int8{ref.Rook, ref.Bishop, ref.Knight}[r.Intn(3)]
+		p.B[ref.Sq(6, 6)] = -ref.Pawn
+		p.B[ref.Sq(7, 6)] = -ref.Pawn
+		p.B[ref.Sq(r.Intn(8), r.Intn(2))] = ref.King
+		for q, n := 0, 7+r.Intn(4); q < n; q++ {
+			sq := ref.Sq(r.Intn(8), r.Intn(6))
+			if p.B[sq] == 0 {
+				p.B[sq] = ref.Queen
+			}
+		}
+		for k, n := 0, 1+r.Intn(3); k < n; k++ { // pawns on the seventh rank, a-f files
+			sq := ref.Sq(r.Intn(6), 6)
+			if p.B[sq] == 0 {
+				p.B[sq] = ref.Pawn
+			}
+		}
+		for k, n := 0, r.Intn(4); k < n; k++ { // something to take
+			sq := ref.Sq(r.Intn(6), 2+r.Intn(6))
+			if p.B[sq] == 0 {
+				v := int8(1 + r.Intn(5))
+				if v == ref.Pawn && ref.Rank(sq) == 7 {
+					v = ref.Knight
+				}
+				p.B[sq] = -v
+			}
+		}
+		if !valid(&p) || len(p.LegalMoves()) <= 132 {
+			continue
+		}
+		return maybeFlip(r, p), true
+	}
+	return ref.Pos{}, false
+}
